@@ -1,0 +1,82 @@
+//go:build verif
+
+package method_evaluator
+
+import (
+	"fmt"
+	"ti/base"
+)
+
+// Verification instrumentation (build tag verif): one event per binder run
+// (checkAndPropagateArgs) and per method-call evaluation.
+
+var VerifSink func(ev map[string]any)
+
+var verifSeq int
+
+func verifArgList(argTs []*base.T) []any {
+	var out []any
+	for _, a := range argTs {
+		if a == nil {
+			out = append(out, map[string]any{"key": "", "t": map[string]any{"k": "nil-pointer"}})
+			continue
+		}
+		if a.IsKeyValueType() {
+			out = append(out, map[string]any{"key": a.GetKey(), "t": base.VerifTypeJSON(a.GetKeyValue())})
+			continue
+		}
+		out = append(out, map[string]any{"key": "", "t": base.VerifTypeJSON(a)})
+	}
+	return out
+}
+
+func verifBind(m *MethodEvaluator, class string, methodT *base.T, argTs []*base.T) func(*error) {
+	if VerifSink == nil {
+		return func(*error) {}
+	}
+	var decl []any
+	for _, name := range methodT.GetDefineArgs() {
+		lookup := name
+		if base.IsKeySuffix(lookup) {
+			lookup = base.RemoveSuffix(lookup)
+		}
+		dt := getDefinedArgT(m, methodT, class, lookup)
+		d := map[string]any{"name": name, "t": base.VerifTypeJSON(dt), "def": dt.HasDefault(), "builtin": dt.IsBuiltin()}
+		if dt != nil {
+			d["ast"] = dt.IsBuiltinAsterisk
+		}
+		decl = append(decl, d)
+	}
+	ev := map[string]any{
+		"ev": "bind", "round": m.ctx.GetRound(), "file": m.parser.FileName, "row": m.parser.ErrorRow,
+		"class": class, "meth": m.method, "mframe": methodT.GetFrame(), "dclass": methodT.DefinedClass,
+		"static": methodT.IsStatic, "decl": decl, "args": verifArgList(argTs),
+		"novl": len(methodT.Overloads), "anyret": methodT.IsAnyType(),
+	}
+	return func(err *error) {
+		ev["res"] = ""
+		if err != nil && *err != nil {
+			ev["res"] = (*err).Error()
+		}
+		VerifSink(ev)
+	}
+}
+
+func verifCall(m *MethodEvaluator) func() {
+	if VerifSink == nil {
+		return func() {}
+	}
+	verifSeq++
+	seq := verifSeq
+	ev := map[string]any{
+		"ev": "call", "seq": seq, "round": m.ctx.GetRound(), "file": m.parser.FileName, "row": m.parser.ErrorRow,
+		"strategy": fmt.Sprintf("%T", NewStrategy(m)), "recv": base.VerifTypeJSON(m.evaluatedObjectT),
+		"obj": m.objectT.ToString(), "meth": m.method,
+		"cframe": m.ctx.GetFrame(), "cclass": m.ctx.GetClass(), "cmeth": m.ctx.GetMethod(),
+	}
+	VerifSink(ev)
+	return func() {
+		t := m.parser.GetLastEvaluatedT()
+		VerifSink(map[string]any{"ev": "ret", "seq": seq, "round": m.ctx.GetRound(), "row": m.parser.ErrorRow, "t": base.VerifTypeJSON(&t)})
+	}
+}
